@@ -83,6 +83,15 @@ CHECKS = {
     design_ref="DESIGN.md section 6 (C08)", note=_MEM_NOTE + " Tier 1 as C03/C04.",
     technique="Coq proof: induction over the number of calls on the modelled FindIter/FindRevIter state machines, relative to C03/C04 + differential correspondence of iteration histories",
  ),
+ "C09": dict(
+    text="Props/C09.v: for the same arguments any two backends (SWAR, SSE2, AVX2, NEON, simd128), any two CPU-detection outcomes and any two "
+         "architectures give the same result: memchr family, count, iterator histories (C09_iter), memmem::find (C09_memmem_find, unconditional) "
+         "and memmem::rfind; corollaries of 'each equals the specification'. Cargo features and compile-time target features only change "
+         "is_available(), i.e. the model's cpu/arch parameter. The tie does most of the work here: the same cases run through six real builds "
+         "and three forced dispatch outcomes must all print identical answers.",
+    design_ref="DESIGN.md section 6 (C09)", note=_MEM_NOTE,
+    technique="Coq proof: corollary of the per-backend specification theorems for every backend/arch value + multi-build, forced-dispatch differential run",
+ ),
  "C10": dict(
     text="C10_config_and_ranker_irrelevant_partial: for any two prefilter settings, any two ranker FUNCTIONS (quantified over all N -> N) and any "
          "start addresses the finder results coincide; C10_prefilter_state_irrelevant_partial: for any two prefilter states (effective, inert, "
